@@ -85,7 +85,7 @@ impl Out {
         let val = match o { Outcome::Ok(v) => v.abstract_json(), _ => json!({"t": "none"}) };
         let line = json!({"ev": "Call", "e": e, "chars": abstract_chars(input), "len": input.chars().count(),
                           "ph": ph.abstract_json(), "st": o.status(), "val": val, "canon": o.canon(),
-                          "ticks": t.total(), "claim": claim});
+                          "ticks": t.total(), "tk": {"lex": t.lex, "parse": t.parse, "eval": t.eval, "loops": t.loops}, "claim": claim});
         let _ = writeln!(self.events, "{}", line);
     }
     pub fn note_ticks(&mut self, input: &str, t: &Ticks) {
